@@ -295,7 +295,8 @@ func (n *SNode) Print(l Layout) string {
 			case "own-line-bare":
 				out = append(out, "#")
 			case "block":
-				out = append(out, "###", "a block", "comment", "###")
+				// (single and double hashes inside the block are part of its text)
+				out = append(out, "###", "a block, see #1 and #2", "## comment", "###")
 			}
 		}
 		if l.Comments == "eol" {
